@@ -539,6 +539,9 @@ def _finish_cut(asm, c, text, hits, kv, secs, kind):
         if tk[0] == 'replace':
             text = _apply_replace(text, tk, hits, no)
     for tk, lines_, no in secs:
+        if tk[0] == 'bytelits':
+            text = extract.r15_byte_literals(text, hits)
+    for tk, lines_, no in secs:
         if tk[0] == 'opaque_unsafe':
             text = extract.r12_unsafe_blocks(text, hits)
     for tk, lines_, no in secs:
@@ -562,7 +565,7 @@ def _finish_cut(asm, c, text, hits, kv, secs, kind):
     fname = kv.get('rename', kv.get('name', kv.get('label', 'slice')))
     for tk, lines_, no in secs:
         t0 = tk[0]
-        if t0 in ('replace', 'desugar_for', 'opaque_unsafe'):
+        if t0 in ('replace', 'desugar_for', 'opaque_unsafe', 'bytelits'):
             continue
         if t0 == 'mutate':
             mutations.append((tk[1], tk[2], no))
@@ -947,5 +950,8 @@ def _cut_slice(asm, src, kv):
     else:
         raise CutError('slice: unknown take=%s' % take)
     c = extract.Cut(src, f.start + s, f.start + e, 'slice', kv.get('label', kv['fn'] + '@' + kv['anchor'][:20]))
-    text, hits = apply_rules(c.text, macros=asm.macros)
+    # reborrow=a,b : names that are `&mut` references in the enclosing function (the wrapper declares them so); a macro-as-function
+    # call then passes `&mut *a`
+    ctx = c.text + ''.join(' %s: &mut _;' % nm for nm in kv.get('reborrow', '').split(',') if nm)
+    text, hits = apply_rules(c.text, macros=asm.macros, context=ctx)
     return c, text, hits
